@@ -240,6 +240,9 @@ def make_chain(rng):
         base.files[fn0].append(M.Alias("EvoIds", (), M.Vec(M.Prim(ra.choice(["float32", "int16", "uint8"])))))
         base.files[fn0].append(M.Alias("EvoMaybe", (), M.Opt(M.Prim(ra.choice(["float32", "int16", "uint8"])))))
         wal = ("EvoId", "EvoIds", "EvoMaybe")
+        # a record that does not change itself and is made of fixed-size fields only, one of them of the changing named type:
+        # with `EvoId: double` it is a plain 16-byte struct in the current version
+        base.files[fn0].append(M.Record("EvoSample", (), [("t", M.Named("EvoId")), ("v", M.Prim("float64"))]))
         for d in base.defs():
             if isinstance(d, M.Protocol):
                 d.steps.append(("evo11", M.Named("EvoId"), False))
@@ -251,6 +254,9 @@ def make_chain(rng):
                 d.steps.append(("evo18", M.Vec(M.Vec(M.Named("EvoId"), 2)), False))
                 d.steps.append(("evo16", M.Named("EvoIds"), ra.chance(0.5)))
                 d.steps.append(("evo17", M.Named("EvoMaybe"), ra.chance(0.5)))
+                d.steps.append(("evo30", M.Vec(M.Named("EvoSample")), False))
+                d.steps.append(("evo31", M.Named("EvoSample"), True))
+                d.steps.append(("evo32", M.Vec(M.Named("EvoSample"), 2), ra.chance(0.5)))
         for r in recs:
             if ra.chance(0.4):
                 r.fields.append(("evoid%d" % ra.randint(1, 99), ra.choice([M.Named("EvoId"), M.Vec(M.Named("EvoId")), M.Named("EvoIds")])))
